@@ -1,0 +1,41 @@
+//go:build verif
+
+package vgirpc
+
+import (
+	"github.com/apache/arrow-go/v18/arrow"
+	"github.com/apache/arrow-go/v18/arrow/array"
+)
+
+// C06, dynamic streams: castRecordBatch errors against the input schemas a
+// dynamic method's init handler can declare per call ({y:int64}, {x:int64,z:int64}).
+func init() {
+	verifConstProviders = append(verifConstProviders, func() []VerifConst {
+		i64 := arrow.PrimitiveTypes.Int64
+		schX := arrow.NewSchema([]arrow.Field{{Name: "x", Type: i64}}, nil)
+		schY := arrow.NewSchema([]arrow.Field{{Name: "y", Type: i64}}, nil)
+		schXZ := arrow.NewSchema([]arrow.Field{{Name: "x", Type: i64}, {Name: "z", Type: i64}}, nil)
+		errOf := func(prefix string, src *arrow.Schema, n int, target *arrow.Schema) []VerifConst {
+			var b arrow.RecordBatch
+			if n == 0 {
+				b = array.NewRecordBatch(src, nil, 0)
+			} else {
+				b = verifInt64Probe(src, n)
+			}
+			defer b.Release()
+			out, err := castRecordBatch(b, target)
+			if err == nil {
+				if out != nil && out != b {
+					out.Release()
+				}
+				return []VerifConst{verifBytes(prefix+"_type", ""), verifBytes(prefix+"_msg", "")}
+			}
+			return []VerifConst{verifBytes(prefix+"_type", VerifExceptionType(err)), verifBytes(prefix+"_msg", err.Error())}
+		}
+		var out []VerifConst
+		out = append(out, errOf("c06_cast_y_gotx", schX, 1, schY)...)
+		out = append(out, errOf("c06_cast_xz_got1", schX, 1, schXZ)...)
+		out = append(out, errOf("c06_cast_xz_got0", arrow.NewSchema(nil, nil), 0, schXZ)...)
+		return out
+	})
+}
